@@ -151,6 +151,10 @@ class QFn:
         if isinstance(t, ast.BoolOp) and isinstance(t.op, ast.And):
             return [c for v in t.values for c in self.cond(v, env)]
         if ast.unparse(t) == "self.is_check" and "self_is_check" in env: return [("v_self_is_check", [], None)]
+        if isinstance(t, ast.Compare) and len(t.ops) == 1 and isinstance(t.ops[0], ast.Is) and isinstance(t.comparators[0], ast.Constant) and t.comparators[0].value is False \
+           and isinstance(t.left, ast.Call) and self.callee(t.left) is not None and self.callee(t.left).purebool:
+            cs = self.cond(t.left, env)
+            return [("(negb %s)" % cs[0][0], cs[0][1], None)]
         if isinstance(t, ast.Compare) and len(t.ops) == 1 and isinstance(t.ops[0], (ast.Is, ast.IsNot)) and isinstance(t.left, ast.Name) and env.get(t.left.id) in ("ops", "olist") \
            and isinstance(t.comparators[0], ast.Constant) and t.comparators[0].value is None:
             c = "(match v_%s with Some _ => false | None => true end)" % t.left.id
@@ -610,7 +614,7 @@ class QFn:
 class QueueTranslator:
     WANT = ["_get_anti_commutates", "_get_max_connected", "_append_to_queue", "_get_queue",
             "is_empty_legs", "get_vertices", "_gen_one_legs", "get_one_vertices", "check_dependency_one_leg",
-            "_find_in_leg", "find", "is_included", "append", "remove", "replace", "is_empty", "get_center", "append_to_center", "get_lits", "lit", "get_pq", "append_delayed", "restore_delayed"]
+            "_find_in_leg", "find", "is_included", "append", "remove", "replace", "is_empty", "get_center", "append_to_center", "get_lits", "lit", "get_pq", "append_delayed", "restore_delayed", "get_long_leg", "get_one_vertex", "set_center"]
     HEADER = """(* GENERATED by tools/py2coq.py (py2coq_queue.py) from src/paulie/classifier/morph_factory.py — do not edit *)
 From PauLieRefine Require Import PySem.
 From PauLie Require Import Pauli Collection.
